@@ -44,7 +44,7 @@ let () =
     | ["actor"; name; "reg"] ->
       let id = n_of_int (List.length !actors + 1) in
       actors := !actors @ [(name, (id, KRegistrar))]; print_endline "ok"
-    | ["watch"; tab] ->
+    | [("watch" | "lwatch"); tab] ->   (* an LPM-index query watch closes in the same notify step as the table-wide one *)
       let s = get_st () in
       (match List.nth_opt s.s_root (int_of_string tab) with
        | Some v -> watches := !watches @ [int_of_n v.tv_watch]; print_endline (obs s)
